@@ -1001,3 +1001,32 @@ M("c15-neutral-topology-nodes-size-test", "C15", "cola/libtopology/cola_topology
 MUTANTS.append({"id": "c17-neutral-majorization-parameters-renamed", "prop": "C17", "expect": "silent", "mention": [], "tu": None, "edits": [
     {"file": "cola/libcola/cola.cpp", "old": "        EdgeLengths eLengths,\n        TestConvergence *doneTest,\n        PreIteration* preIteration,\n        bool useNeighbourStress)\n    : n(rs.size()),", "new": "        EdgeLengths givenLengths,\n        TestConvergence *doneTest,\n        PreIteration* preIteration,\n        bool useNeighbourStress)\n    : n(rs.size()),", "count": 1},
     {"file": "cola/libcola/cola.cpp", "old": "    std::valarray<double> edgeLengths(eLengths.data(), eLengths.size());", "new": "    std::valarray<double> edgeLengths(givenLengths.data(), givenLengths.size());", "count": 1}]})
+
+# ---------------------------------------------------------------- round i
+M("c05-bend-estimate-capped-inconsistently", "C05", "cola/libavoid/makepath.cpp",
+  "        double penalty = bendCount *\n                lineRef->router()->routingParameter(segmentPenalty);\n\n        return dist + penalty;",
+  "        if (bendCount > 2) bendCount = 0;\n        double penalty = bendCount *\n                lineRef->router()->routingParameter(segmentPenalty);\n\n        return dist + penalty;",
+  mention=["HEURISTIC-CONSISTENT"])
+M("c05-no-pass-through-vertex-at-endpoints", "C05", "cola/libavoid/orthogonal.cpp",
+  "                if (line1 || line2)\n                {\n                    VertInf *cent = new VertInf(router, dummyOrthogID, cp);",
+  "                if (line1 && line2)\n                {\n                    VertInf *cent = new VertInf(router, dummyOrthogID, cp);", mention=["PASS-THROUGH-AT-FREE-ENDPOINT"])
+M("c09-fixed-rectangles-only-ten-times-heavier", "C09", "cola/libvpsc/rectangle.cpp",
+  "            if(fixed.find(i)!=fixed.end()) {\n                weight=10000;", "            if(fixed.find(i)!=fixed.end()) {\n                weight=10;", mention=["FIXED-RECTANGLES-HEAVY"])
+M("c09-neutral-fixed-membership-by-count", "C09", "cola/libvpsc/rectangle.cpp",
+  "            if(fixed.find(i)!=fixed.end()) {\n                weight=10000;", "            if(fixed.count(i)>0) {\n                weight=10000;", expect="silent")
+M("c07-setup-skips-other-axis-compounds", "C07", "cola/libcola/colafd.cpp",
+  "            c != ccs.end(); ++c)\n    {\n        (*c)->generateSeparationConstraints(dim, vs, cs, boundingBoxes);\n    }\n}\n\n\nstatic void setupExtraConstraints",
+  "            c != ccs.end(); ++c)\n    {\n        if ((*c)->dimension() != dim) continue;\n        (*c)->generateSeparationConstraints(dim, vs, cs, boundingBoxes);\n    }\n}\n\n\nstatic void setupExtraConstraints",
+  mention=["EVERY-COMPOUND-OFFERED"])
+M("c07-alignment-translation-depends-on-cursor", "C07", "cola/libcola/compound_constraints.cpp",
+  "            Offset *info = static_cast<Offset *> (*o);\n            assertValidVariableIndex(vars, info->varIndex);\n            vpsc::Constraint *constraint = new vpsc::Constraint(\n                        variable, vars[info->varIndex], info->distOffset, true);",
+  "            Offset *info = static_cast<Offset *> (*o);\n            assertValidVariableIndex(vars, info->varIndex);\n            if (_currSubConstraintIndex > 0 && !info->satisfied) continue;\n            vpsc::Constraint *constraint = new vpsc::Constraint(\n                        variable, vars[info->varIndex], info->distOffset, true);",
+  mention=["TRANSLATORS-IGNORE-FEASIBILITY-BOOKKEEPING"])
+M("c13-resize-sliver-off-centre", "C13", "cola/libtopology/resize.cpp",
+  "            rect->reset(dim, c - DW2, c + DW2);", "            rect->reset(dim, c, c + DW);", mention=["RESIZE-SLIVER-WHERE-THE-NODE-IS"])
+M("c13-coincident-bends-tolerance-tiny", "C13", "cola/libtopology/topology_constraints.cpp",
+  "    const double eps=1e-7;\n    EdgePoint *o=p->inSegment->start, *q=p->outSegment->end;", "    const double eps=1e-13;\n    EdgePoint *o=p->inSegment->start, *q=p->outSegment->end;", mention=["BEND-TIE"])
+M("c04-blocked-edge-walk-steps-after-the-test", "C04", "cola/libavoid/router.cpp",
+  "        EdgeInf *tmp = iter;\n        iter = iter->lstNext;\n\n        if (tmp->blocker() == -1)\n        {\n            tmp->alertConns();\n            tmp->checkVis();\n        }\n        else if (tmp->blocker() == pid)\n        {\n            tmp->checkVis();\n        }\n",
+  "        EdgeInf *tmp = iter;\n\n        if (tmp->blocker() == -1)\n        {\n            tmp->alertConns();\n            tmp->checkVis();\n        }\n        else if (tmp->blocker() == pid)\n        {\n            tmp->checkVis();\n        }\n        iter = iter->lstNext;\n",
+  mention=["LIST-WALK-SAVES-NEXT"])
